@@ -273,6 +273,21 @@ def rand_table(rng, k, n, how='random'):
         t = np.tile(rng.integers(0, n, size=(k, 1)), (1, n))   # every row draws one configuration N times
     else:
         raise ValueError(how)
+    return memory_layout(rng, t)
+
+
+def memory_layout(rng, t):
+    """Same logical table, different memory layout: the resampling must not depend on it
+    (Fortran order, transposed view of a C array, strided view; added after seeded change seed2-C13)."""
+    u = rng.random()
+    if u < 0.15:
+        return np.asfortranarray(t)
+    if u < 0.30:
+        return np.ascontiguousarray(t.T).T
+    if u < 0.40:
+        big = np.zeros((t.shape[0], 2 * t.shape[1]), dtype=t.dtype)
+        big[:, ::2] = t
+        return big[:, ::2]
     return t
 
 
